@@ -132,6 +132,8 @@ impl<'e, U> ExecutionContext<'e, U> {
         // which already performs the scheme compatibility check, but check that
         // invariant holds in the future at least in the debug mode.
         debug_assert!(self.scheme() == field.scheme());
+        #[cfg(feature = "verif-hooks")]
+        crate::verif::yield_point("ctx.get_field_value");
 
         // For now we panic in this, but later we are going to align behaviour
         // with wireshark: resolve all subexpressions that don't have RHS value
